@@ -182,6 +182,7 @@ func init() {
 			failShape("cmdCache.Retrieve: the write end of the pipe is closed somewhere; the model assumes it never is")
 		}
 		c13WalkAction(&b)
+		c13Round2(&b, fset, hf, cset, cf)
 		return b.String()
 	}
 }
@@ -271,9 +272,24 @@ func c13Node(fset *token.FileSet, n ast.Node) string {
 	return strings.Join(strings.Fields(buf.String()), " ")
 }
 
-// printing a node on its own (not the *ast.File) never emits comments; this is the identity, kept
-// as the one place to change if that stops being true
-func c13StripComments(n ast.Node) ast.Node { return n }
+// printing a node on its own (not the *ast.File) does not emit free-standing comments
+func c13StripComments(n ast.Node) ast.Node {
+	// ... except the Doc/Comment groups that hang off declarations inside statements (`var x T`)
+	ast.Inspect(n, func(m ast.Node) bool {
+		switch x := m.(type) {
+		case *ast.GenDecl:
+			x.Doc = nil
+		case *ast.ValueSpec:
+			x.Doc, x.Comment = nil, nil
+		case *ast.TypeSpec:
+			x.Doc, x.Comment = nil, nil
+		case *ast.Field:
+			x.Doc, x.Comment = nil, nil
+		}
+		return true
+	})
+	return n
+}
 
 func c13Stmts(fset *token.FileSet, l []ast.Stmt) []string {
 	out := make([]string, len(l))
@@ -324,4 +340,149 @@ func c13Count(fset *token.FileSet, n ast.Node, stmt string) int {
 		return true
 	})
 	return c
+}
+
+// c13Round2 (follow-up 2): three statements the all-or-nothing argument rests on and that the
+// first translation only passed by.
+//
+//  1. readTar's tar.TypeSymlink case: an os.Symlink error (in particular EEXIST: the path is
+//     occupied by whatever is there) must end the retrieve with an error -> a miss.
+//  2. cmdCache.Store: the kill switch handed to the archive writer, which is started BEFORE the
+//     store process exists. A context refuses to start a command once cancelled; a guarded
+//     cmd.Process.Kill() drops a cancel that arrives before the process exists.
+//  3. cacheMultiplexer.Retrieve / storeUntil / Store: which caches are stored into after a
+//     retrieve, and that nothing is stored when every cache missed.
+func c13Round2(b *strings.Builder, hset *token.FileSet, hf *ast.File, cset *token.FileSet, cf *ast.File) {
+	// ---------------------------------------------------------------- readTar: the member cases
+	rt := findFunc(hf, "", "readTar")
+	var sw *ast.SwitchStmt
+	ast.Inspect(rt.Body, func(n ast.Node) bool {
+		if s, ok := n.(*ast.SwitchStmt); ok {
+			if sw != nil {
+				failShape("readTar: more than one switch")
+			}
+			sw = s
+		}
+		return true
+	})
+	if sw == nil || c13Node(hset, sw.Tag) != "hdr.Typeflag" || sw.Init != nil {
+		failShape("readTar: no `switch hdr.Typeflag`")
+	}
+	cases := map[string]string{}
+	for _, c := range sw.Body.List {
+		cc := c.(*ast.CaseClause)
+		key := "default"
+		if cc.List != nil {
+			if len(cc.List) != 1 {
+				failShape("readTar: case with %d expressions", len(cc.List))
+			}
+			key = c13Node(hset, cc.List[0])
+		}
+		if _, dup := cases[key]; dup {
+			failShape("readTar: duplicate case %s", key)
+		}
+		cases[key] = strings.Join(c13Stmts(hset, cc.Body), " ; ")
+	}
+	if len(cases) != 4 {
+		failShape("readTar: %d cases, expected tar.TypeDir, tar.TypeReg, tar.TypeSymlink, default", len(cases))
+	}
+	if cases["tar.TypeDir"] != `if err := os.MkdirAll(hdr.Name, core.DirPermissions); err != nil { return false, err }` {
+		failShape("readTar: unrecognised tar.TypeDir case {%s}", cases["tar.TypeDir"])
+	}
+	if cases["tar.TypeReg"] != `if dir := filepath.Dir(hdr.Name); dir != "." { if err := os.MkdirAll(dir, core.DirPermissions); err != nil { return false, err } } ; `+
+		`if f, err := openFile(hdr); err != nil { return false, err } else if _, err := io.Copy(f, tr); err != nil { return false, err } else if err := f.Close(); err != nil { return false, err }` {
+		failShape("readTar: unrecognised tar.TypeReg case {%s}", cases["tar.TypeReg"])
+	}
+	if cases["default"] != `log.Warning("Unhandled file type %d for %s", hdr.Typeflag, hdr.Name)` {
+		failShape("readTar: unrecognised default case {%s}", cases["default"])
+	}
+	switch cases["tar.TypeSymlink"] {
+	case `if err := os.Symlink(hdr.Linkname, hdr.Name); err != nil { return false, err }`:
+		b.WriteString("Definition readtar_symlink_exists_is_error : bool := true.\n")
+	case `if err := os.Symlink(hdr.Linkname, hdr.Name); err != nil && !os.IsExist(err) { return false, err }`,
+		`if err := os.Symlink(hdr.Linkname, hdr.Name); err != nil && !errors.Is(err, os.ErrExist) { return false, err }`:
+		// whatever occupies the path stays there, the member is skipped and the retrieve goes on
+		b.WriteString("Definition readtar_symlink_exists_is_error : bool := false.\n")
+	default:
+		failShape("readTar: unrecognised tar.TypeSymlink case {%s}", cases["tar.TypeSymlink"])
+	}
+	// openFile creates or truncates the file in place before any content arrives
+	of := findFunc(hf, "", "openFile")
+	ofs := c13Stmts(hset, of.Body.List)
+	if len(ofs) != 3 || ofs[0] != `f, err := os.OpenFile(header.Name, os.O_WRONLY|os.O_TRUNC|os.O_CREATE, os.FileMode(header.Mode))` || ofs[2] != `return f, nil` ||
+		!strings.HasPrefix(ofs[1], `if err != nil { if os.IsPermission(err) {`) {
+		failShape("openFile: unrecognised body {%s}", strings.Join(ofs, " ; "))
+	}
+	b.WriteString("Definition readtar_file_created_before_content : bool := true.\n")
+
+	// ---------------------------------------------------------------- cmdCache.Store
+	b.WriteString("Inductive kill_switch := KContext | KProcessIfStarted.\n")
+	cs := findFunc(cf, "cmdCache", "Store")
+	if len(cs.Body.List) != 1 {
+		failShape("cmdCache.Store: body is not a single if")
+	}
+	cif, ok := cs.Body.List[0].(*ast.IfStmt)
+	if !ok || cif.Init != nil || cif.Else != nil || c13Node(cset, cif.Cond) != `cache.storeCommand != ""` {
+		failShape("cmdCache.Store: body is not `if cache.storeCommand != \"\" {...}`")
+	}
+	st := c13Stmts(cset, cif.Body.List)
+	if len(st) < 4 || st[0] != `strKey := keyToString(key)` || !strings.HasPrefix(st[1], "log.Debug(") {
+		failShape("cmdCache.Store: unrecognised start {%s}", strings.Join(st, " ; "))
+	}
+	errTail := `if err != nil { log.Warning("Failed to store files via custom command: %s", err) if len(output) > 0 { log.Warning("Custom command output:%s", string(output)) } }`
+	mid := strings.Join(st[2:], " ; ")
+	common := `cmd.Env = append(cmd.Env, "CACHE_KEY="+strKey) ; r, w := io.Pipe() ; cmd.Stdin = r ; `
+	switch mid {
+	case `ctx, cancel := context.WithCancel(context.Background()) ; defer cancel() ; cmd := exec.CommandContext(ctx, "sh", "-c", cache.storeCommand) ; ` +
+		common + `go write(w, target, files, cancel) ; output, err := cmd.CombinedOutput() ; ` + errTail:
+		// a context cancelled before cmd.Start makes Start fail without running anything; one
+		// cancelled later kills the process
+		b.WriteString("Definition cmd_store_kill_switch : kill_switch := KContext.\n")
+	case `cmd := exec.Command("sh", "-c", cache.storeCommand) ; ` +
+		common + `go write(w, target, files, func() { if cmd.Process != nil { cmd.Process.Kill() } }) ; output, err := cmd.CombinedOutput() ; ` + errTail:
+		// a cancel that arrives before the process exists is dropped: the command then runs to its end
+		b.WriteString("Definition cmd_store_kill_switch : kill_switch := KProcessIfStarted.\n")
+	default:
+		failShape("cmdCache.Store: unrecognised statements {%s}", mid)
+	}
+	// in both shapes the writer goroutine is started before the process is
+	b.WriteString("Definition cmd_store_writer_precedes_start : bool := true.\n")
+
+	// ---------------------------------------------------------------- cacheMultiplexer
+	mset, mf := parseFile("src/cache/cache.go")
+	ms := findFunc(mf, "cacheMultiplexer", "Store")
+	if got := strings.Join(c13Stmts(mset, ms.Body.List), " ; "); got != `mplex.storeUntil(target, key, files, len(mplex.caches))` {
+		failShape("cacheMultiplexer.Store: unrecognised body {%s}", got)
+	}
+	su := findFunc(mf, "cacheMultiplexer", "storeUntil")
+	if got := strings.Join(c13Stmts(mset, su.Body.List), " ; "); got !=
+		`var wg sync.WaitGroup ; for i, cache := range mplex.caches { if i == stopAt { break } wg.Add(1) go func(cache core.Cache) { cache.Store(target, key, files) wg.Done() }(cache) } ; wg.Wait()` {
+		failShape("cacheMultiplexer.storeUntil: unrecognised body {%s}", got)
+	}
+	b.WriteString("Definition mplex_store_until_exclusive : bool := true.\n")
+	mr := findFunc(mf, "cacheMultiplexer", "Retrieve")
+	switch got := strings.Join(c13Stmts(mset, mr.Body.List), " ; "); got {
+	case `for i, cache := range mplex.caches { if ok := cache.Retrieve(target, key, files); ok { mplex.storeUntil(target, key, files, i) return ok } } ; return false`:
+		b.WriteString("Definition mplex_backfill_on_total_miss : bool := false.\n")
+	case `i := 0 ; for ; i < len(mplex.caches); i++ { if mplex.caches[i].Retrieve(target, key, files) { break } } ; mplex.storeUntil(target, key, files, i) ; return i < len(mplex.caches)`:
+		// i == len(caches) when nobody hit: every cache is stored into from the output directory as it is
+		b.WriteString("Definition mplex_backfill_on_total_miss : bool := true.\n")
+	default:
+		failShape("cacheMultiplexer.Retrieve: unrecognised body {%s}", got)
+	}
+	// newSyncCache: the order of the caches (dir, http, command)
+	ns := findFunc(mf, "", "newSyncCache")
+	order := []string{}
+	ast.Inspect(ns.Body, func(n ast.Node) bool {
+		if c, ok := n.(*ast.CallExpr); ok {
+			if id, ok := c.Fun.(*ast.Ident); ok && (id.Name == "newDirCache" || id.Name == "newHTTPCache" || id.Name == "newCmdCache") {
+				order = append(order, id.Name)
+			}
+		}
+		return true
+	})
+	if strings.Join(order, ",") != "newDirCache,newHTTPCache,newCmdCache" {
+		failShape("newSyncCache: cache order is %v", order)
+	}
+	b.WriteString("Definition mplex_http_before_cmd : bool := true.\n")
 }
